@@ -3,7 +3,8 @@
    [run_ready] only asks that every merge is handed an iteration order that visits each index entry
    of a selected file exactly once (what iterating the index does); configurations (max file size
    from 0 up, thresholds, sync) are universally quantified in [c]. *)
-From BC Require Import Store.Engine Store.Log Store.Inv Store.Refine Store.Merge Store.Theorems.
+From BC Require Import Store.Codec Store.CodecProofs Store.Engine Store.Log Store.Inv Store.Refine Store.Merge Store.Theorems
+  Store.Crash Store.CrashScript Store.CrashMerge.
 Open Scope N_scope.
 
 (* 1. Every result of every script equals the map's result: a get returns exactly the latest set of
@@ -40,6 +41,19 @@ Print Assumptions C01_no_failure.
 Theorem C01_get : forall s k, Inv s -> get s k = ROk (abs s k).
 Proof. exact get_abs. Qed.
 Print Assumptions C01_get.
+
+(* 5. The record-level files of the model are a faithful picture of the bytes: executing the system
+      calls of any ready script on a byte-level file system leaves, in every data file, exactly the
+      encodings of the model's records (and in every hint file the encodings of its hints); and those
+      bytes scan back to the records at the positions the index uses (Store/CodecProofs.v). *)
+Theorem C01_bytes_on_disk : forall c ops s0, run_ready c init ops -> rep s0 (s_dir init) -> trace_wf (snd (run c init ops)) ->
+  exists s1, fs_run s0 (snd (run c init ops)) = Some s1 /\ rep s1 (s_dir (fst (fst (run c init ops)))).
+Proof. exact bytes_on_disk. Qed.
+Print Assumptions C01_bytes_on_disk.
+
+Theorem C01_bytes_scan_to_records : forall es, Forall wf_entry es -> scan dec_entry (file_bytes es) = Some (layout 0 es).
+Proof. exact scan_file. Qed.
+Print Assumptions C01_bytes_scan_to_records.
 
 (* Non-vacuity: a 12-operation script over three files with a rollover, a delete, a merge of every
    file and a reopen is ready, and runs to the map's answers. *)
